@@ -2,7 +2,7 @@
    implementation; used by the generated case files coq/gen/C15_cases_*.v.
    Definitions only. *)
 From Coq Require Import ZArith List Bool.
-From Verif.C15 Require Import Model.
+From Verif.C15 Require Import Model Model2.
 Import ListNotations.
 Open Scope Z_scope.
 
@@ -32,7 +32,8 @@ Record mlcase := MkML {
   o_nzT : option (list (Z * Z));
   o_rows : option (list (Z * Z * Z)); o_cols : option (list (Z * Z)); o_dot : option (list Z);
   o_asm : list ((Z * Z) * Z); o_reo : list ((Z * Z) * Z); o_reonz : option (list (Z * Z));
-  o_dfm : option (list Z); o_tidx : list (option (list Z)); o_seqb : list (list Z) }.
+  o_dfm : option (list Z); o_tidx : list (option (list Z)); o_seqb : option (list (list Z));
+  o_rtg : option (list (Z * Z)) }.
 
 Definition flag (n : nat) (ok : bool) : list nat := if ok then [] else [n].
 
@@ -52,7 +53,10 @@ Definition check_ml (c : mlcase) : list nat :=
            | Some A => opt_eqb zl_eqb (Some (data_from_matrix bs bidx A)) (o_dfm c)
            | None => true end) ++
   flag 12 (list_eqb (opt_eqb zl_eqb) (map transpose_idx bidx) (o_tidx c)) ++
-  flag 13 (list_eqb zl_eqb (sequential_bidx bs bidx) (o_seqb c)).
+  (* repaired numbering n_k*i + j (fixes/C15-sequential-bidx-rectangular.patch) *)
+  flag 13 (match o_seqb c with Some l => list_eqb zl_eqb (sequential_bidx_fixed bs bidx) l | None => true end) ++
+  (* ReorderedTensorGenerator: the matrix positions requested for the whole data tensor (None = not recorded) *)
+  flag 14 (match o_rtg c with Some l => pl_eqb (tensor_gen_all bs bidx) l | None => true end).
 
 Record repoint := MkRP {
   rp_i : Z; rp_j : Z; rp_I : list Z; rp_J : list Z; rp_ti : Z; rp_tj : Z;
@@ -78,7 +82,8 @@ Inductive hstep :=
 | HDot (x : list Z) (out : option (list Z))
 | HNz (lt : bool) (out : option (list (Z * Z)))
 | HNzT (out : option (list (Z * Z)))
-| HReo (axes : list nat) (out : list ((Z * Z) * Z)).
+| HReo (axes : list nat) (out : list ((Z * Z) * Z))
+| HReoDot (axes : list nat) (x : list Z) (out : option (list Z)).
 
 Fixpoint check_hist (bs : list (Z * Z)) (bidx : list pat) (data : list Z) (steps : list hstep) : list nat :=
   match steps with
@@ -94,6 +99,10 @@ Fixpoint check_hist (bs : list (Z * Z)) (bidx : list pat) (data : list Z) (steps
       | HNzT out => flag 64 (opt_eqb pl_eqb (nonzero (transpose_bs bs) (transpose_bidx bidx) false) out)
                     ++ check_hist bs bidx data steps'
       | HReo axes out => flag 65 (tl_eqb (reorder_asmatrix bs bidx data axes) out) ++ check_hist bs bidx data steps'
+      | HReoDot axes x out =>
+          flag 66 (opt_eqb zl_eqb (matvec (reorder_bs bs axes) (reorder_bidx bidx axes)
+                                          (transpose_data (datashape bidx) data axes) x) out)
+          ++ check_hist bs bidx data steps'
       end
   end.
 
